@@ -175,7 +175,7 @@ func c09Record(dir string, cfg c09Config) (b0 []byte, ops []lite.VfsOp, endDB, e
 }
 
 func runC09(r *ev.Run) {
-	r.Rule = "real SQLite write transactions (one-row autocommit update, small update, spilling bulk insert with cache_size=1, file-growing insert, delete with auto-vacuum truncation, schema change, spilled rollback) recorded under a logging VFS, journal modes DELETE/TRUNCATE/PERSIST, page sizes {512 (+1024, 4096 thorough)}, sector sizes {512, 4096}; for the log of N file operations: every prefix 0..N (the writer process dies before operation k; completed system calls persist) and for every write its torn variants (first 512 bytes, first half rounded to 512; for small writes every 4-byte prefix); oracle: real SQLite opens a copy of the pair, performs its own recovery and dumps it; sqlittle on the original either fails or returns exactly that dump; every image is read by a fresh handle and by handles opened before the writer started: one that read everything, one that was only opened, one that only listed the tables, and (operation boundaries) one that was refused a read once while another process held EXCLUSIVE; from the commit point on (journal deleted / truncated / header zeroed) and before the first operation it must succeed. conformance: replaying the whole log reproduces the files the real run left behind, byte for byte. non-trivial = images with a journal on disk"
+	r.Rule = "real SQLite write transactions (one-row autocommit update, small update, spilling bulk insert with cache_size=1, file-growing insert, delete with auto-vacuum truncation, schema change, spilled rollback) recorded under a logging VFS, journal modes DELETE/TRUNCATE/PERSIST, page sizes {512 (+1024, 4096 thorough)}, sector sizes {512, 4096}; for the log of N file operations: every prefix 0..N (the writer process dies before operation k; completed system calls persist) and for every write its torn variants (first 512 bytes, first half rounded to 512; for small writes every 4-byte prefix); oracle: real SQLite opens a copy of the pair, performs its own recovery and dumps it; sqlittle on the original either fails or returns exactly that dump; every image is read by a fresh handle and by handles opened before the writer started: one that read everything, one that was only opened, one that only listed the tables, (operation boundaries) one that was refused a read once while another process held EXCLUSIVE, and a fresh handle while another process is in the middle of a read; from the commit point on (journal deleted / truncated / header zeroed) and before the first operation it must succeed. conformance: replaying the whole log reproduces the files the real run left behind, byte for byte. non-trivial = images with a journal on disk"
 	dir := ev.TmpDir("c09")
 	defer os.RemoveAll(dir)
 	c09Peers = make(chan *Peer, 8)
@@ -309,6 +309,9 @@ func runC09(r *ev.Run) {
 			if im.torn < 0 {
 				// ... or was refused a read once (another process held the EXCLUSIVE lock), then read fine
 				c09ImageKind(r, dir, fmt.Sprintf("c%d-r%d", ci, ii), cfg, &f, desc, mustSucceed, im.k, opsS, b0, "refused-before")
+				// ... and a fresh handle while ANOTHER process is in the middle of a read (holds SHARED): the dead
+				// writer's journal is as hot as ever
+				c09ImageKind(r, dir, fmt.Sprintf("c%d-x%d", ci, ii), cfg, &f, desc, mustSucceed, im.k, opsS, b0, "fresh-with-another-reader")
 			}
 		})
 	}
@@ -336,6 +339,13 @@ func c09ImageKind(r *ev.Run, dir, name string, cfg c09Config, f *c09Files, desc 
 		}
 	}()
 	var long *Env
+	var otherReader *Peer
+	defer func() {
+		if otherReader != nil {
+			otherReader.Do("lrelease")
+			c09Peers <- otherReader
+		}
+	}()
 	handle := "fresh"
 	if before != nil {
 		// a long-lived handle: opened and read on the state before the transaction
@@ -347,7 +357,21 @@ func c09ImageKind(r *ev.Run, dir, name string, cfg c09Config, f *c09Files, desc 
 			r.Harness("C09 open before: %v", err)
 			return
 		}
-		defer long.H.Close()
+		defer func() {
+			if long != nil {
+				long.H.Close()
+			}
+		}()
+		if kind == "fresh-with-another-reader" {
+			long.H.Close()
+			long = nil
+			otherReader = <-c09Peers
+			if st, _ := otherReader.Do("lhold " + orig); st != "ok" {
+				otherReader.Do("lrelease")
+				c09Peers <- otherReader
+				otherReader = nil
+			}
+		}
 		switch kind {
 		case "long-lived":
 			if _, err := LittleDump(long.H, long.D); err != nil {
